@@ -362,6 +362,8 @@ def run(ck, tier):
     _mp.run(ck, F, 'C08')
     from . import accum as _acc2
     _acc2.run2(ck, F, 'C08')
+    from . import relations as _rel
+    _rel.run(ck, F, 'C08')
     from . import c08x
     c08x.run(ck, F)
     from . import c08y
